@@ -138,8 +138,11 @@ func (node *UniqueIDNode) Equals(node2 Node) bool {
 		u1, err1 := node.UUID()
 		u2, err2 := n2.UUID()
 
+		// A value that is not a UUID can still be compared verbatim, otherwise
+		// a node with a malformed (or empty) value would not even be equal to
+		// a copy of itself.
 		if err1 != nil || err2 != nil {
-			return false
+			return err1 != nil && err2 != nil && node.Value() == n2.Value()
 		}
 
 		return u1.Equals(u2)
